@@ -197,6 +197,22 @@ CHECKS = {
         note=TRUST + "SEQN / SETL evaluation order (T-RZIL); composition over nesting (T-IND); user variables are not named h_tmp<digits>.",
         technique="contract-based deductive verification with ghost state: structural postconditions over the pending table under "
                   "symbolic numbering, path-complete symbolic execution of the real callbacks, source-level native replay"),
+    "C11": dict(
+        category="proof",
+        text="Well-formedness of the emitted body and soundness of the companion record as contracts on the real code: every "
+             "il_init_var() is empty, a comment or `<ctype> [*]<ident> = <expr>;` with valid identifier, balanced parentheses and a "
+             "well-sorted initialiser; add_op (the contract all callback modules use) is verified against the real code for every "
+             "op kind with a SYMBOLIC counter: num_id = old counter, unique names <base>_<num_id>, de-duplication of variables, "
+             "inlined flag, registration table, parameter clash rejected; the emit loops append each initialiser exactly once for "
+             "tables of any size (fold invariants) and callbacks number created nodes after their operands (declare before use); "
+             "final `return instruction_sequence;` / `return NOP();`; string contracts over symbolic code: mention of hi/pkt => "
+             "needs_hi/needs_pkt and => declaration in sub-routine bodies; one getter name/declaration per part; getter names unique "
+             "over all 2181 bundled names (ground). Operand identifier clashes are a BOUNDED clause (finite spelling set).",
+        design_ref="DESIGN.md section 3, C11",
+        note=TRUST + "A-NAMES (user identifiers do not collide with internal base names) is the one assumption left about add_op; "
+             "regex semantics T-RE; bottom-up callback order T-LARK.",
+        technique="contract-based deductive verification: declaration-shape and sort obligations on symbolic templates, symbolic "
+                  "counters (LIA), fold invariants, string/regex verification conditions (z3 seq + cvc5), ground corpus obligations"),
 }
 
 NOT_APPLICABLE = {
